@@ -31,6 +31,8 @@ type Scripted struct {
 	// FailAfterLaunch makes Start launch the "process" (OnStart runs, the pipes stay open) and then report an error:
 	// "now" at once, "ctx" when the start context is done (a runner that waits for readiness that never comes).
 	FailAfterLaunch string
+	// Unnamed: ID() is empty (a runner that has nothing to name because it launched nothing)
+	Unnamed bool
 	// Translate, when set, rewrites plugin addresses (PluginToHost).
 	Translate func(network, addr string) (string, string, error)
 	// OnStart runs in its own goroutine once Start was called.
@@ -96,11 +98,16 @@ func (s *Scripted) Kill(ctx context.Context) error {
 	s.Exit()
 	return nil
 }
-func (s *Scripted) KillCount() int                  { return int(atomic.LoadInt32(&s.Kills)) }
-func (s *Scripted) Stdout() io.ReadCloser           { return s.stdoutR }
-func (s *Scripted) Stderr() io.ReadCloser           { return s.stderrR }
-func (s *Scripted) Name() string                    { return "scripted-plugin" }
-func (s *Scripted) ID() string                      { return "scripted-1" }
+func (s *Scripted) KillCount() int        { return int(atomic.LoadInt32(&s.Kills)) }
+func (s *Scripted) Stdout() io.ReadCloser { return s.stdoutR }
+func (s *Scripted) Stderr() io.ReadCloser { return s.stderrR }
+func (s *Scripted) Name() string          { return "scripted-plugin" }
+func (s *Scripted) ID() string {
+	if s.Unnamed {
+		return ""
+	}
+	return "scripted-1"
+}
 func (s *Scripted) Diagnose(context.Context) string { return "" }
 func (s *Scripted) PluginToHost(n, a string) (string, string, error) {
 	if s.Translate != nil {
